@@ -42,6 +42,24 @@ Theorem C07_converges_abstract : forall (f : gofile) (n : nat), wf_file f = true
 Proof. exact inject_file_iter. Qed.
 Print Assumptions C07_converges_abstract.
 
+(* whole runs (-d / -p): when every named file settles — it is no .go file, is missing, does not
+   parse, or is a file of C06's domain that go/parser reads as expected — a second run over the same
+   names leaves every path as the first run left it *)
+Theorem C07_run_twice : forall parse (names : list str), NoDup names -> forall fs : fsys,
+  (forall n, In n names -> settles parse n (fs_get fs n)) ->
+  exists fs1 fs2, handle_list parse fs names = Ok fs1 /\ handle_list parse fs1 names = Ok fs2 /\
+                  forall q, fs_get fs2 q = fs_get fs1 q.
+Proof. exact handle_list_twice. Qed.
+Print Assumptions C07_run_twice.
+
+Theorem C07_domain_file_settles : forall parse (n : str) (f : gofile) (a a' : list area),
+  wf_file f = true -> has_suffix n GO_SUFFIX = true ->
+  areas_of f = Ok a -> parse n (render f) = Some a ->
+  areas_of (inject_file f) = Ok a' -> parse n (render (inject_file f)) = Some a' ->
+  settles parse n (Some (render f)).
+Proof. exact settles_domain. Qed.
+Print Assumptions C07_domain_file_settles.
+
 (* On the domain, a repeated-run case that agrees with the model satisfies the specification. *)
 Theorem C07_case_model_implies_spec : forall f steps, wf_file f = true ->
   check_model (CRepeat f steps) = true -> check_spec (CRepeat f steps) = true.
